@@ -327,6 +327,9 @@ func (e *End) takeLocked(p []byte, all bool) (int, error) {
 			e.S.Stats["fault.split-read"]++
 		}
 	}
+	if e.S.DebugElig {
+		e.S.Trace = append(e.S.Trace, fmt.Sprintf("   %s read %d of %d (len p %d) who=%d", e.Name, k, len(d.buf), len(p), curGoid()))
+	}
 	quietCopy(p, d.buf[:k])
 	d.buf = d.buf[k:]
 	d.Delivered += int64(k)
@@ -430,6 +433,9 @@ func (e *End) Write(p []byte) (int, error) {
 			d.buf = quietAppend(d.buf, p[:keep])
 		} else {
 			d.buf = quietAppend(d.buf, p[:k])
+		}
+		if s.DebugElig {
+			s.Trace = append(s.Trace, fmt.Sprintf("   %s wrote %d of %d (buf now %d, cap %d) who=%d", e.Name, k, len(p), len(d.buf), d.Cap, curGoid()))
 		}
 		d.Written += int64(k)
 		if d.OnWrite != nil {
